@@ -490,9 +490,12 @@ pub mod arc {
         pub fn downgrade(this: &Self) -> Weak<T> {
             Weak(std::sync::Arc::downgrade(&this.0))
         }
+        #[track_caller]
         pub fn strong_count(this: &Self) -> usize {
+            sync_point_at("arc.strong_count", Location::caller());
             std::sync::Arc::strong_count(&this.0)
         }
+
     }
 
     impl<T: ?Sized> Clone for Arc<T> {
